@@ -15,6 +15,8 @@ import (
 	"os"
 	"sort"
 	"sync"
+	"sync/atomic"
+	"time"
 )
 
 // Partial is the on-disk form written by one test process.
@@ -228,6 +230,58 @@ func JSON(v any) []byte {
 		return []byte(fmt.Sprintf("%#v", v))
 	}
 	return b
+}
+
+type current struct {
+	prop  string
+	since time.Time
+	c     any
+}
+
+var cur atomic.Pointer[current]
+
+// SetCurrent records the case a property body is working on (nil: between cases). The watchdog
+// started by StartWatchdog uses it to turn a case that never finishes into a diagnosable event.
+func SetCurrent(prop string, c any) {
+	if c == nil {
+		cur.Store(nil)
+		return
+	}
+	cur.Store(&current{prop, time.Now(), c})
+}
+
+// StartWatchdog: if one case stays current for longer than VERIF_STUCK_SECONDS (default 600), the
+// case is written to VERIF_STUCK and the process exits with status 3. That is a statement about
+// this run (INCONCLUSIVE), not about the code under test: the time may have gone into the
+// generator or the reference model just as well. Hangs of the library are the business of the
+// deadlines inside C03, C10 and C16.
+func StartWatchdog() {
+	out := os.Getenv("VERIF_STUCK")
+	if out == "" {
+		return
+	}
+	limit := 600 * time.Second
+	if v := os.Getenv("VERIF_STUCK_SECONDS"); v != "" {
+		if n, err := time.ParseDuration(v + "s"); err == nil && n > 0 {
+			limit = n
+		}
+	}
+	go func() {
+		for {
+			time.Sleep(5 * time.Second)
+			c := cur.Load()
+			if c == nil || time.Since(c.since) < limit {
+				continue
+			}
+			b, err := json.Marshal(map[string]any{"property": c.prop, "message": fmt.Sprintf("one case did not finish within %s (generator, reference model or library: unknown)", limit), "case": c.c})
+			if err != nil {
+				b = []byte(fmt.Sprintf(`{"property":%q,"message":"stuck case could not be serialised: %v"}`, c.prop, err))
+			}
+			_ = os.WriteFile(out, b, 0o644)
+			fmt.Fprintf(os.Stderr, "WATCHDOG: a case of %s has been running for more than %s; written to %s\n", c.prop, limit, out)
+			os.Exit(3)
+		}
+	}()
 }
 
 // Journal writes the case that is about to be executed to VERIF_JOURNAL (overwriting the
